@@ -84,6 +84,14 @@ def run_case(case, res):
                             if sergen.shape(t2c) != src:
                                 bad.append(f"[{label}] load(auto_uncompress=False) of an uncompressed file differs")
                         if rng.random() < 0.3:
+                            # the file is the document: a copy under another name (moved, archived, downloaded) loads the same
+                            pth2 = os.path.join(tmp, "copy of tree (1).bak")
+                            shutil.copyfile(pth, pth2)
+                            t2m = load_cls.load(pth2, **load_kw)
+                            res.count("loads_of_a_renamed_copy")
+                            if sergen.shape(t2m) != src:
+                                bad.append(f"[{label}] a copy of the file under another name loads differently")
+                        if rng.random() < 0.3:
                             from pathlib import Path
 
                             t2b = load_cls.load(Path(pth), **load_kw)
